@@ -277,7 +277,12 @@ func (m *mon) sparse6(g *rg.G, gk string, det map[string]interface{}, pick func(
 				fmt.Sprintf("%s reads (formats.txt rule) as n=%d with %d loops, %d repeated edges: %s", clip(s), sc.N, sc.Loops, sc.Repeats, sc.Graph()), "a string that reads as "+g.String())
 			ok = false
 		} else if s != ref {
-			m.viol("Sparse6Encode", "not-the-nauty-string", gk, det, clip(s), clip(ref)+" (ntos6 order and padding rules of formats.txt)")
+			// sparse6 is not a unique encoding: a string that the strict formats.txt reader reads as exactly g
+			// (no loop, no repeated edge, right n) interoperates with the nauty tools.  Differing from nauty's own
+			// writer is recorded, not judged.
+			c.Obs("Sparse6Encode:valid_string_but_not_the_ntos6_string(recorded,not judged)", 1)
+		} else {
+			c.Obs("Sparse6Encode:string_equals_the_ntos6_reference", 1)
 		}
 		if ok && !decoded[s] {
 			decoded[s] = true
@@ -349,7 +354,12 @@ func (m *mon) multicode(g *rg.G, gk string, det map[string]interface{}) {
 			continue
 		}
 		if string(b) != string(ref) {
-			m.viol("MulticodeEncode", "wrong-bytes", gk, det, clipBytes(b), clipBytes(ref))
+			// judged by what the bytes mean: the reference reader must read them as exactly g and consume them all
+			if back, rest, err := codec.MulticodeParse(b); err != nil || len(rest) != 0 || !back.Equal(g) {
+				m.viol("MulticodeEncode", "wrong-bytes", gk, det, clipBytes(b), clipBytes(ref))
+			} else {
+				c.Obs("MulticodeEncode:valid_bytes_but_not_the_reference_order(recorded,not judged)", 1)
+			}
 		}
 	}
 	var h *graph.DenseGraph
@@ -578,7 +588,7 @@ func (m *mon) checkHuge(n int, edges [][2]int, label string) {
 		case int(sc.N) != n || sc.Loops != 0 || sc.Repeats != 0 || fmt.Sprint(codec.NormEdges(sc.Edges)) != fmt.Sprint(edges):
 			m.viol("Sparse6Encode", "string-is-another-graph", gk, det, fmt.Sprintf("%s reads as n=%d edges %v (%d loops, %d repeats)", clip(s), sc.N, sc.Edges, sc.Loops, sc.Repeats), fmt.Sprint(edges))
 		case s != ref:
-			m.viol("Sparse6Encode", "not-the-nauty-string", gk, det, clip(s), clip(ref))
+			c.Obs("Sparse6Encode:valid_string_but_not_the_ntos6_string(recorded,not judged)", 1)
 			strs = append(strs, s)
 		default:
 			strs = append(strs, s, codec.S6Header+s)
